@@ -128,3 +128,46 @@ fn c13_locals_demote_any_c0() {
 fn c13_locals_demote_any_c1_custom() {
     demote_any_body(1, custom_policy)
 }
+
+#[repr(align(64))]
+struct LBuf4([u8; 4 * 64]);
+/// Classes with different slot counts (as the benchmark configurations produce: one / cores):
+/// a valid slot index of the requester can exceed the slot count of the class it steals from.
+fn uneven_body(steal: bool, flip: bool) {
+    let policy = zeroed_policy;
+    let mut buf = LBuf4([0; 4 * 64]);
+    let classes = if flip { [(Class(0), 3), (Class(1), 1)] } else { [(Class(0), 1), (Class(1), 3)] };
+    let classing = Classing::new(&classes, Class(1), policy);
+    let l = Locals::new(&mut buf.0, &classing).unwrap();
+    for (c, n) in classes {
+        for i in 0..n {
+            let row: usize = kani::any();
+            let free: usize = kani::any();
+            kani::assume(row < (1 << 20) && free <= TREE_FRAMES);
+            set_slot(&l, c, i, kani::any(), row, free);
+        }
+    }
+    // the requester: the class with three slots, any of its slots
+    let class = if flip { Class(0) } else { Class(1) };
+    let idx: usize = kani::any();
+    kani::assume(idx < 3);
+    install(Mode::Seq);
+    let done = if steal {
+        l.steal_any(class, Some(idx), None, 1, policy).is_some()
+    } else {
+        l.demote_any(class, Some(idx), None, 1, policy).is_some()
+    };
+    set_mode(Mode::Off);
+    vcover!("C09", done && idx == 2, "a reservation of the class with fewer slots is used by the requester's last slot");
+}
+// @h props=C09,C18 tier=quick geom=4 panics=C09 mem=C18
+#[kani::proof]
+#[kani::unwind(10)]
+fn c09_locals_uneven_steal() {
+    uneven_body(true, false)
+}
+#[kani::proof]
+#[kani::unwind(10)]
+fn c09_locals_uneven_demote() {
+    uneven_body(false, true)
+}
